@@ -219,6 +219,10 @@ def run(ctx, idx):
     from .C11 import text_reaches_lexer
 
     text_reaches_lexer(ctx, idx, "C10.i", "characters inside quoted strings (form feed, vertical tab, U+0085, U+2028/9, a lone CR) are rewritten or dropped with the layout, so a string no longer comes back as its content")
+    ctx.rule("C10.k", "What a text parses to depends on that text alone: state the grammar actions write on the parser object (the EEMS 2.0 flag that becomes the program's version) does not survive from one parse into the next - it is reset by parse(), or every load builds a Parser of its own whose PLY parser is bound to that very object (C16.c's reading; PLY binds the actions to the object given as `module=`, so a PLY parser shared between Parser objects keeps writing the first object's flag).")
+    from .C16 import parser_state
+
+    parser_state(ctx, idx, "C10.k")
     ctx.rule("C10.j", "Only the lexer and the grammar reject text: Parser.parse and Program.from_source raise nothing on a test of the raw text before the PLY parse call (counting brackets or quotes, searching for a character) - such a test cannot tell program text from the inside of a quoted string or a comment, so it refuses well-formed files.")
     n_pre = 0
     for fn_, what_ in ((idx.func("mpilot.parser.parser", "Parser.parse"), "Parser.parse"), (idx.func("mpilot.program", "Program.from_source"), "Program.from_source")):
